@@ -85,7 +85,19 @@ impl TypeSpace {
                             .cloned()
                             .collect()
                     });
+                    // A `null` default belongs to the Option, not to the
+                    // inner type (for which it would not be a valid value).
+                    let inner_metadata = match metadata {
+                        Some(m) if m.default == Some(serde_json::Value::Null) => {
+                            Some(Box::new(Metadata {
+                                default: None,
+                                ..m.as_ref().clone()
+                            }))
+                        }
+                        other => other.clone(),
+                    };
                     let ss = Schema::Object(SchemaObject {
+                        metadata: inner_metadata,
                         instance_type: Some(SingleOrVec::from(*other_type)),
                         enum_values,
                         ..schema.clone()
